@@ -1441,6 +1441,9 @@ class Server:
                     self.available_data_ports.put_nowait((priority + 1, port))
                     if err.errno != errno.EADDRINUSE:
                         raise
+                except BaseException:
+                    self.available_data_ports.put_nowait((priority, port))
+                    raise
         else:
             passive_server = await asyncio.start_server(
                 handler_callback,
